@@ -1020,6 +1020,7 @@ func (context *layoutContext) makeAllPages(rootBox bo.BlockLevelBoxITF, html *tr
 			out = append(out, pages[i])
 		}
 
+		verifPageMade(context, i, resumeAt, len(reportedFootnotes), out[len(out)-1])
 		i += 1
 		if resumeAt == nil && len(reportedFootnotes) == 0 {
 			// Throw away obsolete pages and content
